@@ -1099,6 +1099,9 @@ func (r *vfE2Run) drain(lead *vfE2Client) bool {
 			}
 		} else {
 			idle = 0
+			if len(s.holds) == 0 && s.waiters > 0 && !vfE2ServerBusy() {
+				r.count("drain_samples_waiters_without_holds", 1) // evidence for C04 (not judged here): requests queued on keys nobody holds
+			}
 		}
 		for _, h := range s.holds {
 			if h[1] >= vfE2AnchorLid && h[1] < vfE2GhostLid && s.byKey[h[0]] > 1 {
